@@ -2,20 +2,27 @@
    monitor: exported statements (last file of the family CorePhase2Acct*.v).
    Build order: CorePhase2AcctTr, CorePhase2AcctTr2, CorePhase2AcctMon, CorePhase2AcctMon2,
    CorePhase2AcctFd, CorePhase2AcctAct, CorePhase2AcctLoop, CorePhase2AcctTear,
-   CorePhase2AcctEnd, CorePhase2AcctEv, CorePhase2AcctEvLoop, CorePhase2AcctWait, CorePhase2Acct. *)
+   CorePhase2AcctEnd, CorePhase2AcctEv, CorePhase2AcctEvLoop, CorePhase2AcctWait,
+   [the family CorePhase2K1Base, K1Fd, K1Act, K1Inv, K1Loop, K1Wait, K1Poll, CorePhase2K1],
+   CorePhase2AcctK, CorePhase2AcctCrash, CorePhase2Acct. *)
 From Coq Require Import List ZArith Bool Lia.
 From Ivv Require Import Core.Kernel Core.CoreTypes Core.CoreFd Core.CoreModel Core.Monitors Core.GuardMon Core.CoreSpec
   Core.CoreRel.
 From Ivv Require Export Core.CorePhase2AcctTr Core.CorePhase2AcctTr2 Core.CorePhase2AcctMon Core.CorePhase2AcctMon2
   Core.CorePhase2AcctFd Core.CorePhase2AcctAct Core.CorePhase2AcctLoop Core.CorePhase2AcctTear Core.CorePhase2AcctEnd
-  Core.CorePhase2AcctEv Core.CorePhase2AcctEvLoop Core.CorePhase2AcctWait.
+  Core.CorePhase2AcctEv Core.CorePhase2AcctEvLoop Core.CorePhase2AcctWait Core.CorePhase2AcctK Core.CorePhase2AcctCrash.
 Import ListNotations.
 Local Open Scope Z_scope.
 
-(* codes proved so far, one lemma per code (see CorePhase2AcctEnd.v) *)
-Check core_code_701.
-Check core_code_702.
-Check core_code_706.
+(* codes proved so far, one lemma per code *)
+Check core_code_701.  Check core_code_702.  Check core_code_706.   (* CorePhase2AcctEnd.v *)
+Check core_code_705.  Check core_code_708.  Check core_code_710.   (* CorePhase2AcctK.v *)
+Check core_code_1801. Check core_code_1804.                        (* CorePhase2AcctCrash.v *)
 Print Assumptions core_code_701.
 Print Assumptions core_code_702.
 Print Assumptions core_code_706.
+Print Assumptions core_code_705.
+Print Assumptions core_code_708.
+Print Assumptions core_code_710.
+Print Assumptions core_code_1801.
+Print Assumptions core_code_1804.
